@@ -120,8 +120,13 @@ def case_pcgrad_vec(sp, m, n):
 
 # ------------------------------------------------------------------------------------------- MGDA
 def case_mgda(sp, m, iters):
-    set_kernels()
-    G = free_gram(m)
+    if m == 2:
+        # spectral domain (all 2 x 2 Gramians) with the eigenbasis hint: a variant of the code that goes through an SVD stays analysable
+        G, hint, sig = spectral_gram(m)
+        set_kernels(eigbasis=hint)
+    else:
+        set_kernels()
+        G = free_gram(m)
     J = gram_only(G)
     eps = named("epsilon")
     assume(eps >= 0)
